@@ -1,6 +1,6 @@
 (* C17 -- streaming_body: coding headers agree with negotiation and with the body. *)
 From Coq Require Import String.
-From HS Require Import Lib.Base Lib.Bytes Model.Negot Model.Builder Proofs.NegotP Proofs.BuilderP.
+From HS Require Import Lib.Base Lib.Bytes Model.Chunker Model.GzWriter Model.Negot Model.Builder Proofs.NegotP Proofs.BuilderP Proofs.GzP Proofs.StreamSession.
 
 (* For every method, Accept-Encoding value (any bytes), gzip level and chunk size >= 1:
    the response always carries Vary: accept-encoding; it carries Content-Encoding: gzip exactly
@@ -37,6 +37,33 @@ Theorem c17_builder_calls : forall meth ae cs b, streaming_body meth ae = Ok b -
            b_should_gzip := b_should_gzip b; b_body_needed := b_body_needed b |}.
 Proof. exact build_after_calls. Qed.
 
+(* The body's actual coding matches the header. For every request, every sequence of builder calls and
+   EVERY encoder (what write, flush and finish emit is arbitrary; `enc_init l` is the encoder created
+   for level l): when build() hands out a writer, either the response does not say gzip and a whole
+   session -- write_all and flush in any order, consumer polls anywhere, the drop, the drain -- hands the
+   client exactly the bytes written, verbatim, in order and once, then the clean end; or it says gzip,
+   the level is the last one set and above 0, and the client receives exactly the output of the encoder
+   of that level for that sequence of operations (under flate2's contract: one gzip member of what was
+   written), then the clean end. Chunk size: the last one set. *)
+Theorem c17_coding_matches_header : forall enc enc_write enc_flush enc_finish (enc_init : N -> enc) meth ae cs b h k,
+  streaming_body meth ae = Ok b -> build (fold_left bapply cs b) = Ok (h, Some k) ->
+  let cap := last_chunk cs 4096 in
+  0 < cap /\
+  match k with
+  | KRaw => says_gzip h = false /\
+            forall body, Forall raw_op body -> raw_received cap body = (written body, true)
+  | KGzip l => says_gzip h = true /\ l = last_level cs 6 /\ 0 < l /\
+            forall body, Forall session_op body ->
+              gz_received enc enc_write enc_flush enc_finish cap (enc_init l) body =
+              (session enc enc_write enc_flush enc_finish (enc_init l) (body ++ [ODropWriter]), true)
+  end.
+Proof. exact coding_matches_header. Qed.
+
+Example c17_instance :   (* identity session through 3-byte chunks *)
+  raw_received 3 [OWriteAll [1;2;3;4]; OPoll 0; OFlush; OWriteAll [5]; OPoll 0] = ([1;2;3;4;5], true).
+Proof. vm_compute. reflexivity. Qed.
+
 Print Assumptions c17_headers_and_writer.
 Print Assumptions c17_negotiation_is_c16.
 Print Assumptions c17_builder_calls.
+Print Assumptions c17_coding_matches_header.
